@@ -27,9 +27,10 @@ statements; quality guarantees of the outlier/homolog heuristics.
 
 import ast
 
-from ..astutil import call_name, calls, const_eval, names_in, param_names, stmts, walk_local
+from ..astutil import NotConst, call_name, calls, const_eval, names_in, param_names, stmts, walk_local
 from ..cfg import CFG
 from ..core import AnalysisError, Mutant
+from .. import alias as _alias
 from ..exprnorm import canon, check_spec, contains_expr, same_expr, show, spec, summarize, summarize_block
 from .C15 import assigns, dead_params, ret_expr, single_def
 
@@ -46,6 +47,7 @@ ASSUMPTIONS = [
 MIN_OBLIGATIONS = 60
 
 SUP = "structure/superimpose.py"
+TM = "structure/tm.py"
 CMP = "structure/compare.py"
 
 
@@ -461,7 +463,7 @@ def r4_outliers(ctx, s):
             nm = st.targets[0].value.id
             src = d.get(nm)
             ctx.ob("R4.mask-copy", SUP, f.name, f"{nm} = {ast.unparse(src) if src is not None else '?'}",
-                   isinstance(src, ast.Call) and isinstance(src.func, ast.Attribute) and src.func.attr == "copy",
+                   src is not None and not _alias.roots(src),       # .copy(), np.zeros_like(..), np.array(..): a new array (alias.roots)
                    "a mask updated in place must be a copy, otherwise the mask the fit used changes with it", st.lineno)
     carry = [k for k, st in enumerate(loop.body) if m and ast.unparse(st) == f"{m} = updated_{m}"]
     ctx.ob("R4.loop-carry", SUP, f.name, "inlier_mask = updated_inlier_mask", len(carry) == 1 and carry[0] < idx,
@@ -493,17 +495,32 @@ def r4_outliers(ctx, s):
 
 # ---------------- R5 ---------------------------------------------------------
 
-def r5_homologs(ctx, s):
-    f = s.func("superimpose_homologs")
+def anchor_column_roles(ctx, rel, f, anchor_names):
+    """every `<expression of one structure>[anchors[:, k]]`: k = 0 selects from the fixed, k = 1 from the mobile structure.  The
+    indexed expression may be a name (`fixed_anchor_indices`) or built from one (`np.where(mobile.atom_name == "CA")[0]`): its
+    role is that of the names it mentions"""
     n = 0
     for node in walk_local(f):
-        if isinstance(node, ast.Subscript) and isinstance(node.value, ast.Name) and isinstance(node.slice, ast.Subscript) \
-                and ast.unparse(node.slice.value) == "anchor_indices" and isinstance(node.slice.slice, ast.Tuple):
-            col = const_eval(node.slice.slice.elts[1])
-            r = role(node.value.id)
+        if isinstance(node, ast.Subscript) and isinstance(node.slice, ast.Subscript) and isinstance(node.slice.value, ast.Name) \
+                and node.slice.value.id in anchor_names and isinstance(node.slice.slice, ast.Tuple) and len(node.slice.slice.elts) == 2:
+            try:
+                col = const_eval(node.slice.slice.elts[1])
+            except NotConst:
+                col = None
+            roles = {role(x.id) for x in ast.walk(node.value) if isinstance(x, ast.Name)} - {None}
             n += 1
-            ctx.ob("R5.column-role", SUP, f.name, ast.unparse(node), (r, col) in (("F", 0), ("M", 1)),
+            ctx.ob("R5.column-role", rel, f.name, ast.unparse(node)[:90], len(roles) == 1 and (next(iter(roles)), col) in (("F", 0), ("M", 1)),
                    "anchor pairs are (fixed index, mobile index): column 0 indexes the fixed, column 1 the mobile anchors", node.lineno)
+    return n
+
+
+def r5_homologs(ctx, s):
+    f = s.func("superimpose_homologs")
+    n = anchor_column_roles(ctx, SUP, f, {"anchor_indices"})
+    # the structural-alphabet variant (tm.py) reports its anchors the same way
+    tmf = ctx.src(TM).func("superimpose_structural_homologs")
+    n_tm = anchor_column_roles(ctx, TM, tmf, {"anchors", "anchor_indices"})
+    ctx.floor("R5.column-role:tm", n_tm, 2)
     ctx.floor("R5.column-role", n, 2)
     sel = [st for st in stmts(f) if isinstance(st, ast.Assign) and isinstance(st.value, ast.Subscript)
            and ast.unparse(st.value.slice) == "selected_anchor_indices"]
